@@ -13,3 +13,7 @@ open Gossamer.C21
 #print axioms C21_filter_counterexample
 #print axioms C21_reachable_good
 #print axioms C21_finalise_sound
+#print axioms C21_reachable_accounted
+#print axioms C21_precommit_target_reachable_partial
+#print axioms C21_bfc_closed_form
+#print axioms C21_finalise_closed_form
